@@ -632,6 +632,16 @@ impl World {
                     let reset_id = format!("wire {}", hexd(&[&[0x72u8][..], &id.to_be_bytes()[..]].concat()));
                     let in_use = self.est[e].contains_key(&id) || self.pend[e].contains_key(&id) || self.inc[e].values().any(|v| *v == id);
                     let up = !self.view[e].exited && self.view[e].terminated_by.is_none();
+                    if op == 5 && frame_valid(t[2]) && up && self.view[e].mux_alive && self.opts[e].bind_cap > 0 && evl.contains(&reset_id.as_str()) {
+                        // C15: with binds enabled and the Multiplexor alive, a Bind request is the application's
+                        // to decide — whatever its flow id (the reply carries nothing but the id; the acceptor's
+                        // own flow table is not consulted). A Reset in the very step that receives it is a
+                        // refusal nobody made.
+                        let msg = format!("endpoint {} (binds enabled, application present) answered the Bind frame {} with a Reset at once, without handing the request to its application: {}", NAMES[e], t[2], evl.join("; "));
+                        if !self.fails.iter().any(|f| f.0 == "C15" && f.1 == "bind-reset-unasked") {
+                            self.fails.push(("C15".into(), "bind-reset-unasked".into(), msg));
+                        }
+                    }
                     if op == 2 && evl.contains(&reset_id.as_str()) {
                         // C10 / PROTOCOL.md: never a Reset in reply to a Reset (whatever the id, 0 included)
                         let msg = format!("endpoint {} answered the Reset frame {} with a Reset of the same flow ({}): two such endpoints would bounce it for ever", NAMES[e], t[2], evl.join("; "));
